@@ -46,6 +46,17 @@
 (* through the HSV image).  Every other sampled type - boxes, the          *)
 (* cylinders Lch, Lchuv, Oklch, Cam16UcsJmh and HSLuv (whose solid the     *)
 (* statement does not name) - gets the containment clauses only.           *)
+(*                                                                         *)
+(* Where rounding slack is measured.  Components that are stored as drawn  *)
+(* (boxes, cylinder heights, alpha) must lie in the closed interval        *)
+(* exactly - rand's float sampler guarantees that in floating point.       *)
+(* Components that pass through the cone / bicone sampler are compared     *)
+(* with the ends in CDF space (the CDFs are monotone, so "between" means   *)
+(* the same thing there), because that is where the sampler's roundings    *)
+(* happen: one ulp of the CDF value.  Near the top of a bicone this is a   *)
+(* large step of the lightness in f32 (at l = 0.998 one ulp of the CDF is  *)
+(* 5e-4 of lightness); the model accepts such a sample, and a panic of the *)
+(* constructor because two distinct ends collide in CDF space is rejected. *)
 (***************************************************************************)
 EXTENDS Fx, Sequences
 
